@@ -312,18 +312,37 @@ fn abs_json(d: &AbsDfa) -> Value {
 }
 
 /// records for one abstract DFA built in one style: minimize (C04) and prune/tables (C14)
+fn apply_pre(a: &mut Automaton, pre: usize) {
+    // operations performed on the automaton BEFORE the one under test: the object's own history
+    match pre {
+        1 => a.minimize(),
+        2 => a.remove_unreachable_states(),
+        3 => {
+            a.minimize();
+            a.remove_unreachable_states();
+        }
+        _ => {}
+    }
+}
+
 fn dfa_records(d: &AbsDfa, style: usize, rng: &mut Rng, want_min: bool, want_c14: bool, out_min: &mut Out, out_c14: &mut Out) {
     let reps0 = letter_reps(d);
-    let base = || {
+    let pre = rng.below(4) as usize % 4;
+    let pre_min = if pre == 1 { 2 } else if pre == 3 { 1 } else { 0 }; // before minimize: nothing / prune / minimize
+    let pre_prune = if pre >= 2 { 1 } else { 0 }; // before prune: nothing / minimize
+    let base = |p: usize| {
         let mut m = Map::new();
         m.insert("abs".into(), abs_json(d));
         m.insert("style".into(), json!(style));
+        m.insert("pre".into(), json!(["none", "minimize", "prune", "minimize+prune"][p]));
         m
     };
     if want_min {
         let r = guarded(|| -> Result<(AutDump, AutDump, Value), String> {
-            let a1 = build_abs(d, style)?;
+            let mut a1 = build_abs(d, style)?;
             let mut a2 = build_abs(d, style)?;
+            apply_pre(&mut a1, pre_min);
+            apply_pre(&mut a2, pre_min);
             a2.minimize();
             let db0 = dump_automaton(&a2, &[], &reps0);
             let da = dump_automaton(&a1, &[], &db0.reps);
@@ -331,7 +350,7 @@ fn dfa_records(d: &AbsDfa, style: usize, rng: &mut Rng, want_min: bool, want_c14
             let s = structure(&a2, &db);
             Ok((da, db, s))
         });
-        let mut m = base();
+        let mut m = base(pre_min);
         match r {
             Ok(Ok((da, db, s))) => {
                 m.insert("op".into(), json!("minimize"));
@@ -353,8 +372,10 @@ fn dfa_records(d: &AbsDfa, style: usize, rng: &mut Rng, want_min: bool, want_c14
     }
     if want_c14 {
         let r = guarded(|| -> Result<(AutDump, AutDump, Value, Value, Value), String> {
-            let a1 = build_abs(d, style)?;
+            let mut a1 = build_abs(d, style)?;
             let mut a2 = build_abs(d, style)?;
+            apply_pre(&mut a1, pre_prune);
+            apply_pre(&mut a2, pre_prune);
             a2.remove_unreachable_states();
             let db0 = dump_automaton(&a2, &[], &reps0);
             let da = dump_automaton(&a1, &[], &db0.reps);
@@ -364,7 +385,7 @@ fn dfa_records(d: &AbsDfa, style: usize, rng: &mut Rng, want_min: bool, want_c14
             let csn = char_set_next_probes(&a1, rng);
             Ok((da, db, s_before, s_after, csn))
         });
-        let mut m = base();
+        let mut m = base(pre_prune);
         match r {
             Ok(Ok((da, db, sb, sa, csn))) => {
                 m.insert("op".into(), json!("prune"));
@@ -467,6 +488,21 @@ pub fn drive_automata(a: &Args) {
             let mut a2 = mgr.compile(e);
             let mut a3 = mgr.compile(e);
             a2.minimize();
+            if id % 2 == 0 {
+                // prune a minimized automaton (its initial state need not be state 0 any more)
+                a3.minimize();
+                let a1b = { let mut x = mgr.compile(e); x.minimize(); x };
+                a3.remove_unreachable_states();
+                let d3 = dump_automaton(&a3, &[], &[]);
+                let d1 = dump_automaton(&a1b, &[], &d3.reps);
+                let d3 = dump_automaton(&a3, &[], &d1.reps);
+                let (s1, s3) = (structure(&a1b, &d1), structure(&a3, &d3));
+                let d2 = dump_automaton(&a2, &[], &d1.reps);
+                let d0 = dump_automaton(&a1, &[], &d2.reps);
+                let d2 = dump_automaton(&a2, &[], &d0.reps);
+                let s2 = structure(&a2, &d2);
+                return Some((d0, d2, d1, d3, s1, s2, s3));
+            }
             a3.remove_unreachable_states();
             let d2 = dump_automaton(&a2, &[], &[]);
             let d3 = dump_automaton(&a3, &[], &d2.reps);
@@ -476,12 +512,12 @@ pub fn drive_automata(a: &Args) {
             let s2 = structure(&a2, &d2);
             let s1 = structure(&a1, &d1);
             let s3 = structure(&a3, &d3);
-            Some((d1, d2, d3, s1, s2, s3))
+            Some((d1.clone(), d2, d1, d3, s1, s2, s3))
         });
         match r {
-            Ok(Some((d1, d2, d3, s1, s2, s3))) => {
+            Ok(Some((d0, d2, d1, d3, s1, s2, s3))) => {
                 if want_min {
-                    o1.emit(json!({"op":"minimize","ast":f.t.json(),"style":9,"before":d1.json(),"after":d2.json(),"str":s2}));
+                    o1.emit(json!({"op":"minimize","ast":f.t.json(),"style":9,"before":d0.json(),"after":d2.json(),"str":s2}));
                 }
                 if want_c14 {
                     o2.emit(json!({"op":"prune","ast":f.t.json(),"style":9,"before":d1.json(),"after":d3.json(),"str":s1,"str_after":s3,"csn":[]}));
